@@ -8,25 +8,27 @@ From SE Require Import Base.Num Base.Res Arr.Index Arr.CropExtend Gen.Prelude Ge
 Import ListNotations.
 Open Scope Q_scope.
 
+(* the proofs unfold the whole generated source and split on every comparison, so they do not depend on how the
+   functions are split into helpers *)
 Lemma range_model a :
   Source.get_dim_range a tt =
   match Index.get_dim_range (coords a) with Some r => Ok r | None => Err EValue end.
-Proof. unfold Source.get_dim_range, Index.get_dim_range, py_idx_min, py_idx_max. destruct (coords a); reflexivity. Qed.
+Proof. autounfold with src. unfold Index.get_dim_range, py_idx_min, py_idx_max. destruct (coords a); reflexivity. Qed.
 
 Theorem src_get_coord_index a v r :
   Source.get_coord_index a tt v r = Index.get_coord_index (coords a) v r.
 Proof.
-  unfold Source.get_coord_index, Source.get_coord_index__get_dim_range, Index.get_coord_index, Index.get_dim_range, py_idx_min, py_idx_max.
+  autounfold with src. unfold Index.get_coord_index, Index.get_dim_range, py_idx_min, py_idx_max.
   assert (Hl : length (coords a) = length a) by apply map_length.
   rewrite <- Hl. clear Hl.
   destruct (coords a) as [|c cs]; [reflexivity|]. cbn [bind].
-  repeat break_step; reflexivity.
+  repeat (break_step; cbn [bind]); reflexivity.
 Qed.
 
 Theorem src_crop_dim a start stop rc lc eps :
   Source.crop_dim a tt start stop rc lc eps = CropExtend.crop_dim a start stop rc lc eps.
 Proof.
-  unfold Source.crop_dim, Source.crop_dim__get_dim_range, CropExtend.crop_dim, Index.get_dim_range, py_idx_min, py_idx_max, opt_default.
+  autounfold with src. unfold CropExtend.crop_dim, Index.get_dim_range, py_idx_min, py_idx_max, opt_default.
   destruct (coords a) as [|c cs]; [reflexivity|]. cbn [bind].
-  destruct start, stop, rc, lc; cbn [negb]; repeat break_step; reflexivity.
+  destruct start, stop, rc, lc; cbn [negb bind]; repeat (break_step; cbn [bind]); reflexivity.
 Qed.
